@@ -20,6 +20,8 @@ def parseBeh (s : String) : Option Beh :=
   if s == "f" then some .full
   else if s == "n" then some .notFound
   else if s == "i" then some .invalid
+  else if s == "e" then some .emptyOk
+  else if s == "d" then some .dropped
   else match s.toList with
     | 'p' :: rest => (String.ofList rest).toNat?.map Beh.atMost
     | _ => none
